@@ -25,6 +25,7 @@ import (
 	epb "github.com/google/gce-tcb-verifier/proto/endorsement"
 	"github.com/google/gce-tcb-verifier/sev"
 	"github.com/google/gce-tcb-verifier/verify"
+	"github.com/google/go-sev-guest/abi"
 	cpb "github.com/google/go-sev-guest/proto/check"
 	spb "github.com/google/go-sev-guest/proto/sevsnp"
 	"github.com/google/go-sev-guest/validate"
@@ -73,7 +74,12 @@ func extractEndorsement(attestation *spb.Attestation, opts *SevValidateOptions) 
 		return nil, fmt.Errorf("could not extract endorsement")
 
 	}
-	obj := extractsev.GCETcbObjectName(sev.GCEUefiFamilyID, attestation.GetReport().GetMeasurement())
+	measurement := attestation.GetReport().GetMeasurement()
+	if len(measurement) != abi.MeasurementSize {
+		return nil, fmt.Errorf("failed to get endorsement: measurement size is %d, want %d",
+			len(measurement), abi.MeasurementSize)
+	}
+	obj := extractsev.GCETcbObjectName(sev.GCEUefiFamilyID, measurement)
 	url := verify.GCETcbURL(obj)
 	bin, err := opts.Getter.Get(url)
 	if err != nil {
